@@ -64,8 +64,11 @@ func (a *ad) Reset(s json.RawMessage) error {
 	a.src = &script{h: 1}
 	// identity order for SkipList; a permutation (rotating through all of them) for the Cmp flavour
 	a.perm = make([]int, a.nk+2)
+	// (SkipList orders its keys itself: an order-preserving embedding whose origin moves from path to path, so that the
+	// zero value of the key type is below, among, or above the keys and negative keys occur)
+	off := []int{0, 1, 2, a.nk, a.nk + 1, 3}[a.paths%6]
 	for i := range a.perm {
-		a.perm[i] = i
+		a.perm[i] = i - off
 	}
 	if a.flavour == "cmp" {
 		r := rand.New(rand.NewSource(int64(a.paths)))
